@@ -59,6 +59,7 @@ func c11(r *eng.Run) {
 	res := runE1(r, sp, D, K, r.Pick(300000, 3000000))
 	e1Evidence(r, D, K, res)
 	coverageReport(r, "skipValueFast", "skipValue")
+	arenaRefillPass(r, "C11")
 	runFamily(r, "long-runs", "SkipValueFast", longRunFamily(r.Thorough()), sp.check)
 	runFamily(r, "string-shapes", "SkipValueFast", stringShapeFamily(), sp.check)
 	runFamily(r, "depth-sites", "SkipValueFast", depthSiteFamily(70), sp.check)
